@@ -2,7 +2,7 @@
 
 SEQ_NOTE = ("Trusted: the ~400-line reference model and oracles in bvh/src/model.rs + seq.rs, the self-identifying payload types, the generated typed dispatch "
             "(gen/gen_rig.py) and, for C13-style structure checks, the read-only verif_dump hook. Covers only generated histories over the rigs R5 (all 32 shapes), R9 (2-byte "
-            "identifier, 48 shapes + every archetype through Entry ops), R1, R0; Miri shards cover short histories only.")
+            "identifier, 48 shapes + every archetype through Entry ops), R3 (zero-sized and one-byte components first), R1, R0; Miri shards cover short histories only.")
 
 
 def seq(text, ref, technique="reference-model monitor over generated API histories (native + Miri)"):
